@@ -1,4 +1,5 @@
-From Coq Require Import Bool List.
+From Coq Require Import Bool String List Arith.
+From Verif Require Base.Str.
 From Verif Require Import C01.Model C01.Spec.
 From VerifGen Require Import C01Tables.
 Import ListNotations.
@@ -438,3 +439,153 @@ Example profile_spellings_accepted :
             m {| refs := [ROwn; ROther]; c14n := CExc; trs := [TEnv; TExc]; obj := false; xsig := XNone |}]
   = [true; true; false; false].
 Proof. reflexivity. Qed.
+
+(* ---- round 4: how the options reach the client ------------------------------------------------------ *)
+
+(* the reading of the code (fix 6bdc97cd) is the reading of the text: the same vocabulary *)
+Lemma read_word_says s : read_word s = says s.
+Proof.
+  unfold read_word, says. set (w := Str.lower (Str.strip s)). cbn [existsb find].
+  destruct (String.eqb w "true"), (String.eqb w "yes"), (String.eqb w "on"), (String.eqb w "1"),
+           (String.eqb w "false"), (String.eqb w "no"), (String.eqb w "off"), (String.eqb w "0"), (String.eqb w ""); reflexivity.
+Qed.
+
+(* what is stored for the SP, read as Base.__init__ reads it, is what the deployer meant; in particular
+   Config.load's own "true" / "false" agree with it *)
+Lemma as_optv_stored w : as_optv (stored w) = meant w.
+Proof.
+  destruct w as [|[b|s]|[b|s]]; try reflexivity.
+  - cbn [stored meant meant_v]. rewrite <- read_word_says.
+    destruct (String.eqb s "true") eqn:E1; [apply String.eqb_eq in E1; subst s; reflexivity|].
+    destruct (String.eqb s "false") eqn:E2; [apply String.eqb_eq in E2; subst s; reflexivity|].
+    reflexivity.
+  - cbn [stored meant meant_v as_optv]. rewrite read_word_says. reflexivity.
+Qed.
+
+Lemma config_object_sp k :
+  config_object k XSp NWr = stored (k_wr k) /\ config_object k XSp NWa = stored (k_wa k) /\ config_object k XSp NWor = stored (k_wor k).
+Proof. destruct k as [d a p w1 w2 w3 o]. destruct w1 as [|[|]|[|]], w2 as [|[|]|[|]], w3 as [|[|]|[|]]; repeat split; reflexivity. Qed.
+Lemma config_object_elsewhere k x n : x <> XSp -> config_object k x n = SNone.
+Proof.
+  destruct k as [d a p w1 w2 w3 o]. intros H.
+  destruct x; try congruence; destruct w1 as [|[|]|[|]], w2 as [|[|]|[|]], w3 as [|[|]|[|]], n; reflexivity.
+Qed.
+
+(* what Base.__init__ reads is what the deployer meant for the SP: whatever the class of the configuration
+   object, its current context, the way it was delivered, the other service sections, the spelling *)
+Lemma read_config_meant k : read_config k = meant_config k.
+Proof.
+  unfold read_config, meant_config, obj_getattr. destruct (config_object_sp k) as (H1 & H2 & H3).
+  rewrite H1, H2, H3, !as_optv_stored. reflexivity.
+Qed.
+
+Definition same_force (c c' : config) : Prop :=
+  wr_c c = wr_c c' /\ wa_c c = wa_c c' /\ wor_c c = wor_c c' /\ only_md c = only_md c'.
+
+Lemma state_same_force c c' w s : only_md c = only_md c' -> state c w s = state c' w s.
+Proof. intros H. destruct s as [g|]; [|reflexivity]. unfold state, trusted. rewrite H. reflexivity. Qed.
+
+Lemma parse_message_same_force c c' m : same_force c c' -> parse_message c m = parse_message c' m.
+Proof. intros (H1 & H2 & H3 & H4). rewrite !parse_message_eq, H1, H2, H3, H4. reflexivity. Qed.
+
+Lemma spec_m_b_same_force c c' m i : same_force c c' -> spec_m_b c m i = spec_m_b c' m i.
+Proof.
+  intros (H1 & H2 & H3 & H4). unfold spec_m_b, satisfied_m_b, r_state, a_state.
+  rewrite H1, H2, H3, (state_same_force c c' _ _ H4), (state_same_force c c' _ _ H4). reflexivity.
+Qed.
+
+Lemma sp_run_same_force c c' ms : same_force c c' -> sp_run c ms = sp_run c' ms.
+Proof. intros H. unfold sp_run. apply map_ext. intros m. apply parse_message_same_force, H. Qed.
+
+Lemma spec_client_b_iff k ms ids : spec_client_b k ms ids = true <-> spec_client k ms ids.
+Proof.
+  unfold spec_client_b, spec_client. destruct (meant_config k) as [c|]; [apply spec_seq_b_iff|].
+  rewrite andb_true_iff, Nat.eqb_eq, forallb_forall, Forall_forall.
+  split; intros [H1 H2]; (split; [exact H1|]); intros i Hi; specialize (H2 i Hi); destruct i; try reflexivity; discriminate.
+Qed.
+
+(* the property for every client: every configuration class, context, delivery, spelling; every sequence *)
+Lemma client_holds k ms : spec_client k ms (client_run k ms).
+Proof.
+  unfold spec_client, client_run. rewrite read_config_meant. destruct (meant_config k) as [c|]; [apply sequence_holds|].
+  split; [apply map_length|]. apply Forall_forall. intros i Hi. apply in_map_iff in Hi. destruct Hi as (m & Hm & _). congruence.
+Qed.
+
+(* class of the object, assigned context, delivery and a second service section do not matter *)
+Lemma surface_irrelevant d a p d' a' p' w1 w2 w3 o ms :
+  client_run {| k_deliver := d; k_assigned := a; k_proxy := p; k_wr := w1; k_wa := w2; k_wor := w3; k_only := o |} ms
+  = client_run {| k_deliver := d'; k_assigned := a'; k_proxy := p'; k_wr := w1; k_wa := w2; k_wor := w3; k_only := o |} ms.
+Proof. unfold client_run. rewrite !read_config_meant. reflexivity. Qed.
+
+(* nor does the spelling of a value *)
+Lemma spelling_irrelevant k k' ms :
+  meant_config k = meant_config k' -> client_run k ms = client_run k' ms.
+Proof. intros H. unfold client_run. rewrite !read_config_meant, H. reflexivity. Qed.
+
+(* an unreadable word: no client, no identity, whatever the messages *)
+Lemma unreadable_no_identity k ms : meant_config k = None -> client_run k ms = map (fun _ => false) ms.
+Proof. intros H. unfold client_run. rewrite read_config_meant, H. reflexivity. Qed.
+
+(* the clients of the earlier rounds are the SPConfig instance *)
+Lemma client_of_run c ms : client_run (client_of c) ms = sp_run c ms.
+Proof.
+  unfold client_run. rewrite read_config_meant.
+  destruct c as [o1 o2 o3 o4]. destruct o1 as [|[|]|], o2 as [|[|]|], o3 as [|[|]|];
+    (apply sp_run_same_force; repeat split; reflexivity).
+Qed.
+
+(* non-vacuity: a client that read the options under the CURRENT context of the object (getattr(attr)
+   without "sp") would, handed an IdPConfig, fall back to the defaults: with want_assertions_signed=True
+   it yields an identity from a signed Response around an unsigned assertion, and the spec says so *)
+Definition read_config_current (k : client) : option config :=
+  let g := obj_getattr (config_object k) (current_ctx k) None in
+  match as_optv (g NWr), as_optv (g NWa), as_optv (g NWor) with
+  | Some a, Some b, Some c => Some {| c_wr := a; c_wa := b; c_wor := c; c_only := k_only k |}
+  | _, _, _ => None
+  end.
+Definition run_current (k : client) (ms : list msg) : list bool :=
+  match read_config_current k with Some c => sp_run c ms | None => map (fun _ => false) ms end.
+Example current_context_reader_refuted :
+  let k d := {| k_deliver := d; k_assigned := None; k_proxy := false; k_wr := WUnset; k_wa := WDict (PB true); k_wor := WUnset; k_only := Unset |} in
+  let m := {| r_who := WIdp; a_who := WIdp; m_rs := by_ KIdp KiNone false; m_as := None; m_enc := false; m_bind := POST |} in
+  run_current (k (DObject CSp)) [m] = client_run (k (DObject CSp)) [m]
+  /\ client_run (k (DObject CIdp)) [m] = [false]
+  /\ run_current (k (DObject CIdp)) [m] = [true]
+  /\ spec_client_b (k (DObject CIdp)) [m] [true] = false.
+Proof. repeat split; reflexivity. Qed.
+
+Local Open Scope string_scope.
+Local Open Scope list_scope.
+(* the reading before fix 6bdc97cd violated the property: want_response_signed written as the text "False"
+   (or "no", "0", " false ") stayed a non-empty str, i.e. a requirement: a validly signed assertion in an unsigned
+   Response, which satisfies (False, True, unset), was refused; and "maybe" built a client *)
+Example reading_v0_refuted :
+  let k t := {| k_deliver := DObject CSp; k_assigned := None; k_proxy := false; k_wr := WSet (PT t); k_wa := WDict (PB true);
+                k_wor := WUnset; k_only := Unset |} in
+  let m := {| r_who := WIdp; a_who := WIdp; m_rs := None; m_as := by_ KIdp KiNone false; m_enc := false; m_bind := POST |} in
+  client_run_v0 (k "False") [m] = [false] /\ spec_client_b (k "False") [m] [false] = false
+  /\ client_run_v0 (k "false") [m] = [false] /\ spec_client_b (k "false") [m] [false] = false
+  /\ client_run (k "False") [m] = [true] /\ client_run (k " no ") [m] = [true] /\ client_run (k "0") [m] = [true]
+  /\ client_run (k "maybe") [m] = [false] /\ spec_client_b (k "maybe") [m] [false] = true
+  /\ spec_client_b (k "maybe") [m] [true] = false.
+Proof. repeat split; reflexivity. Qed.
+
+(* on the spellings the earlier rounds generated (booleans, "true" / "false" in the dict, "true" through setattr)
+   the two readings agree *)
+Definition old_spelling (w : written) : Prop :=
+  In w [WUnset; WDict (PB true); WDict (PB false); WSet (PB true); WSet (PB false); WDict (PT "true"); WDict (PT "false"); WSet (PT "true")].
+Lemma old_spelling_v0 w : old_spelling w ->
+  exists v, as_optv (stored w) = Some v /\ forall d, in_force (as_optv_v0 (stored w)) d = in_force v d.
+Proof.
+  unfold old_spelling. cbn [In]. intros H.
+  repeat (destruct H as [H|H]; [rewrite <- H; eexists; split; [reflexivity|intros d; reflexivity]|]). contradiction.
+Qed.
+Lemma reading_v0_agrees_on_old_spellings k ms :
+  old_spelling (k_wr k) -> old_spelling (k_wa k) -> old_spelling (k_wor k) -> client_run_v0 k ms = client_run k ms.
+Proof.
+  intros A1 A2 A3. unfold client_run_v0, client_run, read_config_v0, read_config, obj_getattr.
+  destruct (config_object_sp k) as (H1 & H2 & H3). rewrite H1, H2, H3.
+  destruct (old_spelling_v0 _ A1) as (v1 & E1 & F1), (old_spelling_v0 _ A2) as (v2 & E2 & F2), (old_spelling_v0 _ A3) as (v3 & E3 & F3).
+  rewrite E1, E2, E3. apply sp_run_same_force. unfold same_force, wr_c, wa_c, wor_c, only_md. cbn [c_wr c_wa c_wor c_only].
+  rewrite F1, F2, F3. repeat split; reflexivity.
+Qed.
